@@ -21,7 +21,7 @@ ALL_STATES = ["picks in descending frequency order", "same pole picked twice", "
 REQUIRED_STATES = ["picks in descending frequency order", "deselect-one with >= 2 selected", "deselect-nearest with >= 2 selected", "click without modifier ignored",
                    "click outside the axes", "deselect on empty selection", "modifier released before click", "dialog opened with freqlim",
                    "deselect-nearest beside the midpoint of two selected frequencies", "same pole picked twice",
-                   "hand-over of picks at two alternating model orders"]
+                   "hand-over of picks at two alternating model orders", "pick at the lower edge of the axes", "hand-over with two retained poles closer than the extraction tolerance"]
 RULE = ("the real SelFromPlot dialog is constructed with Tk replaced by inert stand-ins and driven by real matplotlib Mouse/Key events dispatched through "
         "the canvas callback registry at pixel positions computed from data coordinates; ALL sequences up to length 3 (quick) / 4 (thorough) over "
         "{shift down, shift up, pick at each of 6 poles of a 3x4 table, deselect-one, deselect-nearest at 2 positions}; random length-6 sequences at "
@@ -48,6 +48,7 @@ def cases(tier, seed):
     out = [{"cls": "enumerated", "seqs": seqs[c0:c0 + 50], "k": c0} for c0 in range(0, len(seqs), 50)]
     nr = 48 if tier == "quick" else 900
     out += [{"cls": "random", "plot": ["SSI", "pLSCF", "FDD"][k % 3], "k": k} for k in range(nr)]
+    out += [{"cls": "synthetic_handover", "k": 5000 + k} for k in range(12 if tier == "quick" else 150)]
     return out
 
 
@@ -383,6 +384,13 @@ def run_random(ctx, case):
         if s.ok and rng.random() < 0.8:
             yy = 3.0 if (not s.model or rng.random() < 0.3) else float(s.model[int(rng.integers(0, len(s.model)))][1] + rng.uniform(-0.3, 0.3))
             s.click(int(rng.choice([2, 2, 3])), float(rng.choice(fn) + rng.uniform(-1, 1)), -10.0 if plot == "FDD" else yy)
+        if s.ok and rng.random() < 0.4:
+            # picks at the very edge of the coordinate ranges: at / below the first model order, at the first frequency line
+            if plot == "FDD":
+                s.click(1, 0.0, float(rng.uniform(-40, -1)))
+            else:
+                s.click(1, float(rng.choice(fn) + rng.uniform(-0.5, 0.5)), float(rng.choice([0.0, -0.2, -0.4])))
+            ctx.state("pick at the lower edge of the axes")
         for _ in range(4):
             if not s.ok:
                 break
@@ -472,7 +480,63 @@ def run_random(ctx, case):
         ctx.sample({"entry": f"SelFromPlot({plot}) random session + mpe_from_plot", "history": s.hist if s else None, "hand-over history": s2.hist, "selection": sorted(s2.model)})
 
 
+def run_synthetic_handover(ctx, rng):
+    """hand-over on a hand-made table with two closely spaced retained poles at one order (1 % apart and less): the extraction
+    called by mpe_from_plot (default tolerance) must return the pole that was picked, whole"""
+    from pyoma2.algorithms import SSIcov
+    from pyoma2.algorithms.data.result import SSIResult
+
+    nr, no = 6, 8
+    Fn = np.full((nr, no), np.nan)
+    base = np.array([2.4, 2.4 * (1 + float(rng.choice([0.003, 0.006, 0.009]))), 7.1, 11.3])
+    for o in range(2, no):
+        rows = rng.permutation(nr)[:4]
+        Fn[rows, o] = base * (1 + 1e-5 * rng.standard_normal(4))
+    Xi = np.where(np.isfinite(Fn), 0.01 + 0.001 * np.arange(nr)[:, None] + 0.0001 * np.arange(no)[None, :], np.nan)
+    Phi = np.where(np.isfinite(Fn)[:, :, None], (np.arange(nr)[:, None, None] + 1) + 1j * (np.arange(no)[None, :, None] + 1) + np.arange(3)[None, None, :], np.nan)
+    Lab = np.where(np.isfinite(Fn), 1, 0)
+    Lab[:, :3] = 0
+    a = SSIcov(name="synthetic", br=4, ordmax=no - 1)
+    a.fs, a.dt = 100.0, 0.01
+    a.data = np.zeros((10, 3))
+    a.result = SSIResult(Fn_poles=Fn, Xi_poles=Xi, Phi_poles=Phi, Lab=Lab, Lambds=Fn.astype(complex))
+    holder, sess = {}, {}
+    o_pick = int(rng.integers(3, no))
+    which = [int(x) for x in rng.permutation(2)[: int(rng.integers(1, 3))]]  # one of the two close poles, or both
+
+    def script():
+        s2 = Session(ctx, holder["self"], "SSI", "hand-over@synthetic close poles")
+        sess["s"] = s2
+        s2.key(True)
+        for w in which:
+            s2.click(1, float(base[w] + (0.0005 if w else -0.0005)), float(o_pick))
+        if rng.random() < 0.5:
+            s2.click(1, 7.1, float(o_pick))
+
+    holder["script"] = script
+    with headless(holder):
+        a.mpe_from_plot()
+    s2 = sess.get("s")
+    ctx.ev("hand-over@SSIcov.mpe_from_plot(closely spaced poles)")
+    if s2 is None or not s2.ok:
+        return
+    r = a.result
+    got = sorted(zip([float(x) for x in np.atleast_1d(r.Fn)], [float(x) for x in np.atleast_1d(r.Xi)], [int(x) for x in np.atleast_1d(r.order_out)]))
+    want = []
+    for f, o in s2.model:
+        i = int(np.where(Fn[:, o] == f)[0][0])
+        want.append((float(f), float(Xi[i, o]), int(o)))
+    ctx.check(got == sorted(want), "handover:closely_spaced_poles_not_the_picked_ones",
+              lambda: f"picked (f, xi, order) {sorted(want)} but mpe_from_plot extracted {got} (two retained poles {base[0]:.4f} / {base[1]:.4f} Hz at each order)")
+    ctx.state("hand-over with two retained poles closer than the extraction tolerance")
+    ctx.nontrivial(("synthetic_handover", o_pick, tuple(which)))
+    import matplotlib.pyplot as plt
+    plt.close("all")
+
+
 def run_case(ctx, case):
+    if case["cls"] == "synthetic_handover":
+        return run_synthetic_handover(ctx, gen.rng_of(case))
     if case["cls"] == "enumerated":
         run_enumerated(ctx, case)
     else:
